@@ -280,6 +280,9 @@ func (maps *trackedMaps) processUnfiltered(ctx context.Context, ef *Filter, filt
 						if f.Kind() == reflect.Ptr {
 							f = f.Elem()
 						}
+						if f == reflect.ValueOf(nil) {
+							continue // a nil element: nothing to filter
+						}
 						if f.Type() == reflect.TypeOf(structpb.Struct{}) {
 							f = f.FieldByName("Fields")
 						}
